@@ -39,7 +39,8 @@ where
             return Err(ExecutionError::NotU32Value(b, err_code));
         }
 
-        self.add_range_checks(Operation::U32assert2(err_code), a, b, false);
+        // the AIR ties the limbs to the operands as s1 = 2^16 * h1 + h0 and s0 = 2^16 * h3 + h2
+        self.add_range_checks(Operation::U32assert2(err_code), b, a, false);
 
         self.stack.copy_state(0);
         Ok(())
